@@ -574,6 +574,9 @@ class Surrogates(Cached):
         :return: the Pearson correlation test matrix.
         """
         (N, n_time) = original_data.shape
+        if surrogates.shape != original_data.shape:
+            raise ValueError("original_data and surrogates must have the "
+                             "same shape.")
         return _test_pearson_correlation(to_cy(original_data, DFIELD),
                                          to_cy(surrogates, DFIELD),
                                          N, n_time)
@@ -600,6 +603,9 @@ class Surrogates(Cached):
         :return: the mutual information test matrix.
         """
         (N, n_time) = original_data.shape
+        if surrogates.shape != original_data.shape:
+            raise ValueError("original_data and surrogates must have the "
+                             "same shape.")
         #  Calculate symbolic time series and histograms
         #  Calculate 2D histograms and mutual information
         #  mi[i,j] gives the mutual information between the ith original_data
